@@ -304,6 +304,9 @@ type Backend struct {
 	CreateInvoiceErr bool
 	InvoiceStatusErr bool
 
+	// AfterPay runs inside a pay call after the node has recorded its outcome and before the call returns to the
+	// mint (the answer is on its way): whoever asks the node meanwhile already gets the final status.
+	AfterPay func(c *Call)
 	// Hook runs before every call (scheduler yield / crash / fault injection). A non-nil error is
 	// returned to the mint as the call's error.
 	Hook func(c *Call) error
@@ -561,7 +564,11 @@ func (b *Backend) SendPayment(ctx context.Context, request string, maxFee uint64
 	if err != nil {
 		return lightning.PaymentStatus{PaymentStatus: lightning.Failed}, err
 	}
-	return b.pay(c, request, call.AmountMsat, maxFee)
+	st, err := b.pay(c, request, call.AmountMsat, maxFee)
+	if b.AfterPay != nil {
+		b.AfterPay(c)
+	}
+	return st, err
 }
 
 func (b *Backend) PayPartialAmount(ctx context.Context, request string, amountMsat uint64, maxFee uint64) (lightning.PaymentStatus, error) {
@@ -573,7 +580,11 @@ func (b *Backend) PayPartialAmount(ctx context.Context, request string, amountMs
 	if err != nil {
 		return lightning.PaymentStatus{PaymentStatus: lightning.Failed}, err
 	}
-	return b.pay(c, request, amountMsat, maxFee)
+	st, err := b.pay(c, request, amountMsat, maxFee)
+	if b.AfterPay != nil {
+		b.AfterPay(c)
+	}
+	return st, err
 }
 
 func (b *Backend) OutgoingPaymentStatus(ctx context.Context, hash string) (lightning.PaymentStatus, error) {
